@@ -24,7 +24,7 @@ CLASH_MIX = {"create": 5, "write": 5, "delete": 4, "rename": 2, "mkdir": 2, "rmt
 
 
 def budget(tier):
-    return {"quick": {"runs": 6000, "wall": 150}, "thorough": {"runs": 400000, "wall": 1500}}[tier]
+    return {"quick": {"runs": 6000, "wall": 150}, "thorough": {"runs": 72000, "wall": 900}}[tier]
 
 
 def _gen(rng, ex, nops, style, mix):
